@@ -240,6 +240,7 @@ class GroupBy:
                 self._factorize_group_key_in_chunks(group_key)
             else:
                 self._group_ikey, self._result_index = factorize_1d(group_key)
+            self._order_boolean_labels_by_first_appearance()
         else:
             self._sort = sort
             self._group_ikey, self._result_index = factorize_2d(
@@ -247,6 +248,35 @@ class GroupBy:
             )
 
         self.result_index.names = group_key_names
+
+    def _order_boolean_labels_by_first_appearance(self):
+        """
+        A boolean key is factorized with the labels [False, True] whatever comes first.
+        When the result is not going to be sorted, list True first if the key starts with it,
+        as for every other key and whichever way the key was factorized.
+        """
+        if self._sort or len(self._result_index) != 2 or self._result_index.dtype != bool:
+            return
+        ikey = self._group_ikey
+        chunks = ikey.chunks if isinstance(ikey, pa.ChunkedArray) else [ikey]
+        for j, chunk in enumerate(chunks):
+            codes = np.asarray(chunk)
+            seen = codes[codes >= 0]
+            if len(seen):
+                first = seen[0]
+                if self._group_key_pointers is not None:
+                    first = self._group_key_pointers[j][first]
+                break
+        else:
+            return
+        if first == 1:
+            # the key starts with the second label: swap the two
+            self._result_index = self._result_index[::-1]
+            if self._group_key_pointers is None:
+                codes = np.asarray(ikey)
+                self._group_ikey = np.where(codes < 0, codes, 1 - codes)
+            else:
+                self._group_key_pointers = [1 - p for p in self._group_key_pointers]
 
     @cached_property
     def _group_key_lengths(self):
